@@ -23,7 +23,7 @@ FAULTS = ["illegal_char_line", "stray_identifier_line", "stray_comma_line", "del
           "delete_open_brace", "unterminated_string", "column_without_type", "unknown_setting", "unknown_index_type",
           "bad_ref_operator", "bad_action", "bad_colour", "text_after_close_brace", "delete_open_bracket", "delete_close_bracket",
           "duplicate_open_bracket", "duplicate_close_bracket",
-          "empty_settings", "trailing_comma_in_settings", "missing_comma_in_settings", "missing_value", "ref_without_column", "keyword_typo"]
+          "empty_settings", "trailing_comma_in_settings", "missing_comma_in_settings", "missing_value", "ref_without_column", "keyword_typo", "junk_in_type_args"]
 _HEADS = [('Table ', 'table_head', 'table'), ('Enum ', 'enum_head', 'enum'), ('TableGroup ', 'group_head', 'group'),
           ('Project ', 'project_head', 'project'), ('Ref', 'ref_head', 'ref'), ('indexes', 'indexes_head', 'indexes'),
           ('Note ', 'sticky_head', 'note'), ('Note {', 'note_head', 'note')]
@@ -90,6 +90,8 @@ def label(lines: List[str]) -> List[Dict[str, Any]]:
                 feats.append('settings')
             if bare.count('[') + bare.count(']') > 0:
                 feats.append('brackets_outside_literals')
+            if kind == 'column' and re.match(r'\s*(?:"x*"|\w+)\s+[^\[]*\([^()\[\]]*\)', bare):
+                feats.append('type_args')
             m = re.search(r'\[([^\[\]]*)\]\s*(//.*)?$', bare)
             if m and 'settings' in feats:
                 if ',' in m.group(1):
@@ -189,6 +191,11 @@ def apply_fault(lines: List[str], i: int, fault: str, variant: int) -> List[str]
         # grammar reads `Reff:` as `Ref f:` -- keyword and name may be glued -- so a typo that keeps the prefix proves nothing)
         typo = [w[:-2] + w[-1] + w[-2], w[1:], w[1] + w[0] + w[2:]][variant % 3]
         new[i] = m.group(1) + typo + ln[m.end():]
+    elif fault == 'junk_in_type_args':
+        mk = mask(ln)
+        m = re.match(r'\s*(?:"x*"|\w+)\s+[^\[]*\(([^()\[\]]*)\)', mk)
+        k = m.end(1)
+        new[i] = ln[:k] + [' @@', ' ?!', '%%', ' =>', ' ]'][variant % 5] + ln[k:]
     elif fault == 'duplicate_open_bracket':
         # every opening bracket of the line in turn (settings list, array suffix of a type), glued or spaced
         ks = [m.start() for m in re.finditer(r'\[', mask(ln))]
@@ -223,7 +230,7 @@ def _exec_chunk(items):
 
 
 def main(argv: List[str]) -> int:
-    rep = core.Report('C07', 'Malformed.tla: 24 fault kinds applied at every line of TLC-generated documents printed canonically; the outcome '
+    rep = core.Report('C07', 'Malformed.tla: 25 fault kinds applied at every line of TLC-generated documents printed canonically; the outcome '
                              'of the parse call validated by TLC for every (fault, site) pair that ProvablyInvalid lists')
     rep.rule = ('case = (document seed, line, fault kind, variant); only pairs listed by Malformed!ProvablyInvalid are judged; every '
                 'judged case is non-trivial (exactly one fault)')
@@ -242,7 +249,7 @@ def main(argv: List[str]) -> int:
             for fault in FAULTS:
                 if i >= len(lines) and fault not in ('illegal_char_line', 'stray_identifier_line', 'stray_comma_line'):
                     continue
-                for variant in range(13 if fault == 'bad_action' else 8 if fault == 'unknown_index_type' else 3 if fault in ('empty_settings', 'trailing_comma_in_settings', 'missing_comma_in_settings', 'missing_value', 'ref_without_column', 'keyword_typo') else 4 if fault in ('duplicate_open_bracket', 'duplicate_close_bracket') else 3 if fault in ('illegal_char_line', 'bad_colour', 'bad_ref_operator', 'text_after_close_brace', 'unknown_setting') else 1):
+                for variant in range(13 if fault == 'bad_action' else 8 if fault == 'unknown_index_type' else 5 if fault == 'junk_in_type_args' else 3 if fault in ('empty_settings', 'trailing_comma_in_settings', 'missing_comma_in_settings', 'missing_value', 'ref_without_column', 'keyword_typo') else 4 if fault in ('duplicate_open_bracket', 'duplicate_close_bracket') else 3 if fault in ('illegal_char_line', 'bad_colour', 'bad_ref_operator', 'text_after_close_brace', 'unknown_setting') else 1):
                     try:
                         new = apply_fault(lines + ([''] if i >= len(lines) else []), i, fault, variant + (seed if fault != 'unknown_setting' else 0))
                     except (ValueError, AttributeError, ZeroDivisionError, IndexError):
